@@ -15,7 +15,8 @@
 EXTENDS WatchProp
 
 CONSTANTS Ids, MaxPub, W,         \* bounds of the model
-          Tails                   \* tail sizes tried by StartTail
+          Tails,                  \* tail sizes tried by StartTail
+          BBs                     \* {FALSE} or {FALSE, TRUE}: kind watches with tail / bookmark also ask for the bootstrap bookmark
 
 VARIABLES log,     \* committed events, position p (0-based) is log[p+1]
           cap, stream,  \* the ring: capacity and slots 0..cap-1
@@ -94,7 +95,11 @@ StartBoot(w, filt, contents) ==
   /\ UNCHANGED <<log, cap, stream, cur>>
 
 (* tail: the implementation scans / subtracts on the ring *)
-StartTail(w, kind, i, n) ==
+(* BootstrapBookmark together with TailEvents / StartFromBookmark (kind watches): the initial Noop event carries the *)
+(* bookmark of the position right before the first replayed event, so that a consumer that resumes from it sees the *)
+(* replay again rather than skipping it                                                                              *)
+NoopAt(pos) == Ev("noop", 0, 0, FALSE, 0, FALSE, pos - 1)
+StartTail(w, kind, i, n, bb) ==
   /\ ws[w].status = "idle" /\ n > 0
   /\ LET minPos == Max(writePos - cap + Gap, 0)
          RingId(p) == stream[p % cap].id
@@ -102,15 +107,17 @@ StartTail(w, kind, i, n) ==
             IF pos > minPos /\ k < n THEN Scan[pos - 1, IF RingId(pos - 1) = i THEN k + 1 ELSE k] ELSE pos
          pos == IF kind = "one" THEN Scan[writePos, 0]
                 ELSE Max(writePos - Min(n, cap - Gap), 0)
-     IN Started(w, kind, i, FALSE, pos, <<>>, writePos, ExpectedTail(kind, i, n, writePos, cap))
+         noop == IF bb /\ kind = "all" THEN <<NoopAt(pos)>> ELSE <<>>
+     IN Started(w, kind, i, FALSE, pos, noop, writePos, noop \o ExpectedTail(kind, i, n, writePos, cap))
   /\ UNCHANGED <<log, cap, stream, cur>>
 
 (* resume from bookmark p: accepted iff the code's range test passes *)
-StartBookmark(w, kind, i, p) ==
+StartBookmark(w, kind, i, p, bb) ==
   /\ ws[w].status = "idle"
   /\ IF p < writePos - cap + Gap \/ p < (IF kind = "one" THEN 0 ELSE -1) \/ p >= writePos
      THEN ws' = [ws EXCEPT ![w] = [Idle EXCEPT !.status = "rejected", !.rejected = TRUE]]
-     ELSE Started(w, kind, i, FALSE, p + 1, <<>>, p + 1, <<>>)
+     ELSE LET noop == IF bb /\ kind = "all" THEN <<NoopAt(p + 1)>> ELSE <<>> IN
+          Started(w, kind, i, FALSE, p + 1, noop, p + 1, noop)
   /\ UNCHANGED <<log, cap, stream, cur>>
 
 (* the watcher goroutine re-acquires the lock: overrun test, then copy *)
@@ -155,8 +162,8 @@ Next == \/ \E i \in Ids : Publish(i)
         \/ \E w \in W, i \in Ids : StartOne(w, i)
         \/ \E w \in W, f \in BOOLEAN : StartAll(w, f)
         \/ \E w \in W, f \in BOOLEAN, c \in BOOLEAN : StartBoot(w, f, c)
-        \/ \E w \in W, i \in Ids, n \in Tails : StartTail(w, "one", i, n) \/ StartTail(w, "all", 0, n)
-        \/ \E w \in W, i \in Ids, p \in -1..MaxPub : StartBookmark(w, "one", i, p) \/ StartBookmark(w, "all", 0, p)
+        \/ \E w \in W, i \in Ids, n \in Tails, bb \in BBs : StartTail(w, "one", i, n, FALSE) \/ StartTail(w, "all", 0, n, bb)
+        \/ \E w \in W, i \in Ids, p \in -1..MaxPub, bb \in BBs : StartBookmark(w, "one", i, p, FALSE) \/ StartBookmark(w, "all", 0, p, bb)
         \/ \E w \in W : Read(w) \/ Deliver(w)
 Spec == Init /\ [][Next]_vars
 FairSpec == Spec /\ \A w \in W : WF_vars(Read(w)) /\ WF_vars(Deliver(w))
